@@ -285,6 +285,59 @@ def check_weights(rep, prog):
                    what='every argument the component computes with is supplied')
     if n_comp < 8:
         raise AnalysisError('fewer component calls in the mixture functions than the 8 confirmed by reading (%d)' % n_comp)
+    # layout of the parameter vectors handed to the point-mass integrators: the callee strips a tail of known length and roles
+    # (ppos, gammapos pairs; the symmetric wrapper also reads the correlation coefficient as the last pdf parameter), so the literal
+    # tail the mixture appends to the shared pdf parameters must have exactly that length and those roles
+    def norm_role(nm):
+        return nm.replace('_', '')
+
+    def tail_spec(cls, meth, call):
+        if (cls, meth) == ('Cache1D', 'integrate_point_pos'):
+            kw = {k.arg: k.value for k in call.keywords}
+            npos = kw.get('Npos')
+            npos = npos.value if isinstance(npos, ast.Constant) else 1
+            return ['ppos', 'gammapos'] * npos, False
+        callee = prog.func(C1 if cls == 'Cache1D' else C2, '%s.%s' % (cls, meth))
+        tail, head, head_last = None, None, False
+        for n in own_nodes(callee):
+            if isinstance(n, ast.Assign) and isinstance(n.value, ast.Subscript) and ast.unparse(n.value.value) == 'params' and isinstance(n.value.slice, ast.Slice):
+                sl = n.value.slice
+                if sl.lower is not None and sl.upper is None and isinstance(n.targets[0], ast.Tuple) and ast.unparse(sl.lower) == '-%d' % len(n.targets[0].elts):
+                    tail = [norm_role(ast.unparse(e)) for e in n.targets[0].elts]
+                if sl.lower is None and sl.upper is not None and isinstance(n.targets[0], ast.Name):
+                    head = n.targets[0].id
+        if head is not None:
+            head_last = any(isinstance(n, ast.Assign) and ast.unparse(n.value) == '%s[-1]' % head and ast.unparse(n.targets[0]) == 'rho' for n in own_nodes(callee))
+        return tail, head_last
+    n_layout = 0
+    for mod_, q in ((C2, 'mixture_symmetric_point_pos'), (C2, 'mixture_point_pos')):
+        f = prog.func(mod_, q)
+        frel = prog.mod(mod_).rel
+        sing_ = {n.targets[0].id: n.value for n in own_nodes(f) if isinstance(n, ast.Assign) and len(n.targets) == 1 and isinstance(n.targets[0], ast.Name)}
+        for c in own_nodes(f):
+            if not (isinstance(c, ast.Call) and isinstance(c.func, ast.Attribute) and isinstance(c.func.value, ast.Name) and c.func.value.id in ('s1', 's2') and 'point_pos' in c.func.attr and c.args):
+                continue
+            cls = 'Cache1D' if c.func.value.id == 's1' else 'Cache2D'
+            vec = c.args[0]
+            if isinstance(vec, ast.Name) and vec.id in sing_:
+                vec = sing_[vec.id]
+            lit = vec.right if isinstance(vec, ast.BinOp) and isinstance(vec.op, ast.Add) and isinstance(vec.right, ast.List) else None
+            spec, head_last = tail_spec(cls, c.func.attr, c)
+            if lit is None or spec is None:
+                raise AnalysisError('%s: the parameter vector of %s.%s is not of the form list(pdf_params) + [tail]' % (q, c.func.value.id, c.func.attr))
+            names = [norm_role(ast.unparse(e)) for e in lit.elts]
+            k = len(spec)
+            tail_ok = len(names) >= k and [re.sub(r'\d+$', '', x) for x in names[len(names) - k:]] == [re.sub(r'\d+$', '', x) for x in spec] and \
+                (len(set(spec)) == len(spec)) == (len(set(names[len(names) - k:])) == len(names[len(names) - k:]) or len(set(spec)) != len(spec))
+            lead = names[:len(names) - k]
+            lead_ok = lead == ['rho'] if (head_last or cls == 'Cache2D') else lead == []
+            n_layout += 1
+            rep.ob('R-ARGS', '%s vector for %s.%s' % (q, c.func.value.id, c.func.attr), tail_ok and lead_ok,
+                   'appends [%s]; %s.%s strips a tail of %d (%s)%s' % (', '.join(ast.unparse(e) for e in lit.elts), cls, c.func.attr, k, ', '.join(spec),
+                                                                     ' and reads the last remaining entry as rho' if head_last else ''), frel, c.lineno,
+                   what='the tail appended to the shared pdf parameters has the length and roles the integrator strips')
+    if n_layout < 4:
+        raise AnalysisError('fewer point-mass component calls than the 4 confirmed by reading (%d)' % n_layout)
     mv = prog.mod(VO)
     vf = prog.func(VO, 'Vourlaki_mixture')
     fsn = [n for n in own_nodes(vf) if isinstance(n, ast.Assign) and ast.unparse(n.targets[0]) == 'fs']
